@@ -65,6 +65,14 @@ func parseVersion1(reader *bufio.Reader) (*Header, error) {
 		return nil, ErrCantReadProtocolVersionAndCommand
 	}
 	tokens := strings.Split(line[:len(line)-2], SEPARATOR)
+	// "PROXY UNKNOWN": the sender may omit the rest of the line and the receiver must
+	// ignore whatever is there; the real socket addresses are used.
+	if len(tokens) >= 2 && tokens[1] == "UNKNOWN" {
+		header := initVersion1()
+		header.TransportProtocol = UNSPEC
+		state.ProxyNormalV1Header.Inc(1)
+		return header, nil
+	}
 	if len(tokens) < 6 {
 		state.ProxyErrInvalidHeader.Inc(1)
 		return nil, ErrCantReadProtocolVersionAndCommand
